@@ -17,7 +17,11 @@ func FuzzNaming(f *testing.F) {
 	f.Fuzz(func(t *testing.T, mode uint8, addr string, mask uint64) {
 		naming := []string{"local", "full", "domain"}[int(mode)%3]
 		o := &hx.Outcome{}
-		checkNaming(o, naming, addr, mask, "x")
+		before := ""
+		if mask&(1<<63) != 0 {
+			before = "first..last@example.com" // a refused parse ahead of every judged call
+		}
+		checkNaming(o, naming, addr, mask, "x", before)
 		if o.Failed() {
 			t.Fatalf("%s", o.Viols[0].Error())
 		}
